@@ -239,7 +239,7 @@ theorem Chunk.annotated_iff (c : Chunk) : c.annotated = true ↔
 /-- explicit result of `split` when the super-run entry is the default one and the split sub-run
 annotations are tiled -/
 theorem split_ann_ok {c : Chunk} {rid : String} {t : Int} {early : Bool} {d1 d2 : List Row} {t' : Int}
-    (hsup : c.superrun = [⟨rid, c.start, c.stop⟩])
+    (hbad : c.isSuperrunBad = false) (hsup : c.superrun = [⟨rid, c.start, c.stop⟩])
     (hs1 : ∀ x, (splitSub c t').1 = some x → Tiled x) (hs2 : ∀ x, (splitSub c t').2 = some x → Tiled x)
     (h0 : 0 ≤ c.start) (hst : c.start ≤ t') (hts : t' ≤ c.stop)
     (hin1 : ∀ x ∈ d1, c.start ≤ x.time ∧ x.endt ≤ t') (hin2 : ∀ x ∈ d2, t' ≤ x.time ∧ x.endt ≤ c.stop)
@@ -254,7 +254,7 @@ theorem split_ann_ok {c : Chunk} {rid : String} {t : Int} {early : Bool} {d1 d2 
     unfold splitRun1; rw [hsup, runSingle_of hsr.1]; rfl
   have hr2 : splitRun2 c t' = some rid := by
     unfold splitRun2; rw [hsup, runSingle_of hsr.2]; rfl
-  rw [Chunk.split_eq, hv]
+  rw [Chunk.split_of_not_bad hbad, Chunk.splitCore_eq, hv]
   simp only [bind, Except.bind, hr1, hr2, hm1, hm2, hsup]
   rw [mkChunk_ann h0 hst hin1 hs1 hsr.1]
   simp only
@@ -292,7 +292,7 @@ theorem split_annotated {c : Chunk} {t : Int} {early : Bool} {c1 c2 : Chunk}
     rw [hss]; exact popEmpty_tiled htsp.1
   have hs2 : ∀ x, (splitSub c t').2 = some x → Tiled x := by
     rw [hss]; exact popEmpty_tiled htsp.2
-  have hres := split_ann_ok hsup hs1 hs2 h0 hst hts hin1 hin2 hv
+  have hres := split_ann_ok (Chunk.not_bad_of_runId hrid) hsup hs1 hs2 h0 hst hts hin1 hin2 hv
   rw [h, hss] at hres
   simp only [Except.ok.injEq, Prod.mk.injEq] at hres
   obtain ⟨rfl, rfl⟩ := hres
@@ -377,7 +377,7 @@ theorem split_ann_total {c : Chunk} {t : Int} (ha : c.annotated = true)
       rw [hss]; exact popEmpty_tiled htsp.1
     have hs2 : ∀ x, (splitSub c t').2 = some x → Tiled x := by
       rw [hss]; exact popEmpty_tiled htsp.2
-    exact ⟨_, _, split_ann_ok hsup hs1 hs2 h0 hst hts hin1 hin2 hv⟩
+    exact ⟨_, _, split_ann_ok (Chunk.not_bad_of_runId hrid) hsup hs1 hs2 h0 hst hts hin1 hin2 hv⟩
 
 /-! ### `merge` is total on chunks that agree (incl. identical run annotations) -/
 
@@ -478,15 +478,16 @@ theorem eq_replicate_of_all {α} {l : List α} {a : α} (h : ∀ x ∈ l, x = a)
 /-- `Chunk.merge` is total on ≥ 1 well-formed chunks that agree on kind, run id, number of rows,
 range AND run annotations, the annotations being the default super-run entry and no or tiled
 sub-runs (explicit side conditions: `superrun = [(run_id, start, stop)]`, `subruns` none or tiled) -/
-theorem merge_total' {c0 : Chunk} {rest : List Chunk} {dt rid : String}
+theorem merge_total_fields {c0 : Chunk} {rest : List Chunk} {dt rid : String}
     (hwf : ∀ c ∈ c0 :: rest, c.wf = true)
     (hagree : ∀ c ∈ rest, c.kind = c0.kind ∧ c.runId = c0.runId ∧ c.rows.length = c0.rows.length ∧
       c.start = c0.start ∧ c.stop = c0.stop ∧ c.subruns = c0.subruns ∧ c.superrun = c0.superrun)
     (hrid : c0.runId = some rid) (hsup : c0.superrun = [⟨rid, c0.start, c0.stop⟩])
     (hsub : ∀ x, c0.subruns = some x → Tiled x) :
-    ∃ c, mergeChunks (c0 :: rest) dt = .ok c := by
+    ∃ c, mergeChunks (c0 :: rest) dt = .ok c ∧ c.start = c0.start ∧ c.stop = c0.stop ∧ c.runId = c0.runId ∧
+      c.superrun = [⟨rid, c0.start, c0.stop⟩] ∧ (c0.subruns = none → c.subruns = none) := by
   cases rest with
-  | nil => exact ⟨c0, rfl⟩
+  | nil => exact ⟨c0, rfl, rfl, rfl, rfl, hsup, id⟩
   | cons c1 rest' =>
     rw [mergeChunks_eq]
     have hk : allEq ((c0 :: c1 :: rest').map (·.kind)) = true := by
@@ -541,22 +542,23 @@ theorem merge_total' {c0 : Chunk} {rest : List Chunk} {dt rid : String}
     have hmsup : mergeSuperrun (c0 :: c1 :: rest') true = .ok [⟨rid, c0.start, c0.stop⟩] := by
       unfold mergeSuperrun
       rw [hsups, collectRuns_replicate _ (by simp), mergableCheck_repl]
-    have hmsub : ∃ sub, mergeSubruns (c0 :: c1 :: rest') true = .ok sub ∧ ∀ x, sub = some x → Tiled x := by
+    have hmsub : ∃ sub, mergeSubruns (c0 :: c1 :: rest') true = .ok sub ∧ (∀ x, sub = some x → Tiled x) ∧
+        (c0.subruns = none → sub = none) := by
       unfold mergeSubruns
       rw [hsubs]
       cases hs : c0.subruns with
       | none =>
         rw [collectRuns_nones]
-        exact ⟨none, rfl, by simp⟩
+        exact ⟨none, rfl, by simp, fun _ => rfl⟩
       | some subs =>
         have ht := hsub subs hs
         rw [collectRuns_replicate _ ht.2.1, mergableCheck_repl]
-        refine ⟨_, rfl, ?_⟩
+        refine ⟨_, rfl, ?_, fun h => by cases h⟩
         intro x hx
         split at hx
         · simp at hx
         · simp at hx; subst hx; exact ht
-    obtain ⟨sub, hsubeq, hsubt⟩ := hmsub
+    obtain ⟨sub, hsubeq, hsubt, hsubn⟩ := hmsub
     simp only [hsubeq, hmsup, bind, Except.bind]
     obtain ⟨h0, hse, -, -, -⟩ := (Chunk.wf_iff c0).1 (hwf c0 (by simp))
     -- rows of the merged chunk carry the intervals of the last chunk, which is well-formed
@@ -580,6 +582,20 @@ theorem merge_total' {c0 : Chunk} {rest : List Chunk} {dt rid : String}
       obtain ⟨y, hy, e1, e2⟩ := mem_zipRows hx
       have := hincl y hy
       omega
-    exact ⟨_, mkChunk_ann h0 hse hin hsubt (Or.inr rfl)⟩
+    exact ⟨_, mkChunk_ann h0 hse hin hsubt (Or.inr rfl), rfl, rfl, rfl, rfl, hsubn⟩
+
+/-- (existence only; `merge_total_fields` also exposes range, run id and annotations of the result)
+`Chunk.merge` is total on ≥ 1 well-formed chunks that agree on kind, run id, number of rows,
+range AND run annotations, the annotations being the default super-run entry and no or tiled
+sub-runs (explicit side conditions: `superrun = [(run_id, start, stop)]`, `subruns` none or tiled) -/
+theorem merge_total' {c0 : Chunk} {rest : List Chunk} {dt rid : String}
+    (hwf : ∀ c ∈ c0 :: rest, c.wf = true)
+    (hagree : ∀ c ∈ rest, c.kind = c0.kind ∧ c.runId = c0.runId ∧ c.rows.length = c0.rows.length ∧
+      c.start = c0.start ∧ c.stop = c0.stop ∧ c.subruns = c0.subruns ∧ c.superrun = c0.superrun)
+    (hrid : c0.runId = some rid) (hsup : c0.superrun = [⟨rid, c0.start, c0.stop⟩])
+    (hsub : ∀ x, c0.subruns = some x → Tiled x) :
+    ∃ c, mergeChunks (c0 :: rest) dt = .ok c := by
+  obtain ⟨c, h, -⟩ := merge_total_fields (dt := dt) hwf hagree hrid hsup hsub
+  exact ⟨c, h⟩
 
 end Strax
